@@ -16,6 +16,7 @@ clause is evaluated on z3 terms (proof) and on native values (replay, bounded st
 """
 from __future__ import annotations
 
+_MISSING = object()
 REGISTRY = {}
 TRANSPARENT = {}
 LEMMAS = {}
@@ -33,11 +34,19 @@ class Case:
         self.qualname, self.name, self.ns, self.parent = qualname, name, ns, parent
 
     def _get(self, k, default=None):
-        if k in self.ns.__dict__:
-            v = self.ns.__dict__[k]
-        elif self.parent is not None and k in self.parent.__dict__:
-            v = self.parent.__dict__[k]
-        else:
+        v = _MISSING
+        for c in self.ns.__mro__:
+            if c is object:
+                continue
+            if k in c.__dict__:
+                v = c.__dict__[k]
+                break
+        if v is _MISSING and self.parent is not None:
+            for c in self.parent.__mro__:
+                if c is not object and k in c.__dict__:
+                    v = c.__dict__[k]
+                    break
+        if v is _MISSING:
             return default
         if isinstance(v, staticmethod):
             v = v.__func__
